@@ -14,63 +14,97 @@ from vlib import *
 PID = "tcplegal"
 MC_INV = ["SPECIFICATION Spec", "INVARIANTS LegalTransport HandlesExact BookkeepingExact LeakFree CancelledNeverOpened",
           "VIEW View", "CHECK_DEADLOCK FALSE"]
-BASE = {"Addrs": "<- Addrs2", "Peers": "<- PeersDef", "MaxCid": 3, "MaxOpenLen": 2, "Mutant": ""}
+BASE = {"Addrs": "<- Addrs2", "Peers": "<- PeersDef", "MaxCid": 3, "MaxOpenLen": 2, "Kind": "tcp", "Mutant": ""}
 MUTANTS = ["cancel-handle-kept", "cancelled-open-surfaces", "dial-entry-kept", "dial-failure-swallowed"]
 
 ASSUME = [
     "the caller keeps its side of the interface: connection ids passed to dial()/open() are fresh (the driver allocates "
     "them from the allocator the manager and the transport share)",
-    "remote endpoints are the driver's: real litep2p nodes (healthy / dialing in), a bound non-listening port, a listener "
-    "that never answers, listeners that send junk (three variants), a healthy node's socket claimed for another identity or "
-    "without /p2p, the same behind the name `localhost`, an unresolvable name; all on 127.0.0.1",
-    "timing: connection_open_timeout = substream_open_timeout = T (250 ms quick); an operation is judged 'never concluded' "
-    "only after 6 T + 0.5 s without any call or event (three times the longest bound: dial = connect T + negotiation T, "
-    "open deadline 2 T); executions during which a 20 ms timer fired more than 2 T late are discarded and re-run, never judged",
-    "TLC bounds: 2-3 addresses, opens of 1-2 addresses, 3 connection ids (4 in one thorough configuration), 2 identities",
+    "remote endpoints are the driver's: real litep2p nodes listening on tcp + ws + quic (healthy / dialing in), a bound non-listening "
+    "TCP port, a TCP listener that never answers, TCP listeners that send junk (three variants), a bound UDP socket nobody reads and one "
+    "that answers junk (QUIC), a healthy node's socket claimed for another identity or without /p2p, the same behind the name "
+    "`localhost`, an unresolvable name; raw inbound clients: silent / junk / close (tcp, ws), junk datagrams (quic); all on 127.0.0.1",
+    "timing: connection_open_timeout = substream_open_timeout = T = 250 ms; an operation is judged 'never concluded' only after "
+    "3 x bound + 0.5 s without any call or event, bound = 2 T for tcp/ws (connect T + negotiation T; open deadline 2 T) and "
+    "T + 3 s for quic (lookup T + quinn's handshake timeout max(T, 3 x initial PTO), measured 3.1 s); executions during which a 20 ms "
+    "timer fired more than `bound` late are discarded and re-run once at low concurrency, never judged",
+    "TLC bounds: 2-3 addresses (one without /p2p), opens of 1-2 addresses, 2-3 connection ids (4 in one thorough tcp configuration), 2 identities",
     "after accept() the connection's life is C07's subject; here only the accept/reject results are part of the interface",
+    "not covered: /wss (needs TLS roots), IPv6, WebRTC, listener failure (stream end), QUIC inbound handshakes that stall "
+    "(server-side timeout is quinn's default, not configured by litep2p)",
 ]
 
 FAST_FAIL = ["refused", "garbage", "wrongid", "bad"]
 
 
+# ----------------------------------------------------------------------------- transports
+
+QBASE = {"Addrs": "<- Addrs3", "Peers": "<- PeersDef", "MaxCid": 2, "MaxOpenLen": 2, "Mutant": ""}
+# T = connection_open_timeout = substream_open_timeout (ms); bound = the longest any single operation may take:
+#   tcp / ws: connect T + negotiation T (open(): deadline 2 T)
+#   quic    : lookup T + quinn's handshake timeout = max(T, 3 x initial PTO = 3 s) (measured: 3.1 s at T = 250 ms, 5.1 s at T = 5 s)
+TRANSPORTS = {
+    "tcp": {"spec": "TcpTransportMC.tla", "base": dict(BASE), "T": 250, "bound": 500},
+    "ws": {"spec": "TcpTransportMC.tla", "base": dict(BASE, Kind="ws"), "T": 250, "bound": 500},
+    "quic": {"spec": "QuicTransportMC.tla", "base": dict(QBASE), "T": 250, "bound": 3250},
+}
+QUIC_MUTANTS = ["negotiate-forgets-dialer"]
+
+
+def mc_configs(ctx, tr):
+    base = TRANSPORTS[tr]["base"]
+    if tr == "tcp":
+        if ctx.quick():
+            return [("cid3", dict(base)), ("addr3", dict(base, Addrs="<- Addrs3", MaxCid=2))]
+        return [("cid3", dict(base)), ("addr3cid3", dict(base, Addrs="<- Addrs3")), ("cid4len1", dict(base, MaxCid=4, MaxOpenLen=1))]
+    if ctx.quick():
+        return [("addr3", dict(base, Addrs="<- Addrs3", MaxCid=2))]
+    return [("addr3", dict(base, Addrs="<- Addrs3", MaxCid=2)), ("cid3", dict(base, Addrs="<- Addrs2", MaxCid=3))]
+
+
 # ----------------------------------------------------------------------------- model checking
 
-def mc_runs(ctx):
-    if ctx.quick():
-        runs = [("cid3", dict(BASE)), ("addr3", dict(BASE, Addrs="<- Addrs3", MaxCid=2))]
-    else:
-        runs = [("cid3", dict(BASE)), ("addr3cid3", dict(BASE, Addrs="<- Addrs3")), ("cid4len1", dict(BASE, MaxCid=4, MaxOpenLen=1))]
+def mc_runs(ctx, tr):
     out = []
-    for name, consts in runs:
-        r = tlc_mc(ctx, "TcpTransportMC.tla", write_cfg(ctx, "mc_%s.cfg" % name, consts, MC_INV), workers=6 if ctx.quick() else 12, timeout=3000)
+    for name, consts in mc_configs(ctx, tr):
+        spec = TRANSPORTS[tr]["spec"]
+        r = tlc_mc(ctx, spec, write_cfg(ctx, "mc_%s_%s.cfg" % (tr, name), consts, MC_INV), workers=6 if ctx.quick() else 12, timeout=3000)
         if not r["ok"]:
-            raise ToolError("TcpTransportMC violates an invariant in config %s: the model must be corrected or the counterexample "
-                            "replayed against the real transport:\n%s" % (name, r.get("error", r["out"][-3000:])))
+            raise ToolError("%s (%s) violates an invariant in config %s: the model must be corrected or the counterexample "
+                            "replayed against the real transport:\n%s" % (spec, tr, name, r.get("error", r["out"][-3000:])))
         out.append({k: r[k] for k in ("transitions", "distinct", "depth", "wall_s") if k in r})
-        out[-1]["cfg"] = name
-        log("MC %s: %s" % (name, out[-1]))
+        out[-1]["cfg"] = "%s/%s" % (tr, name)
+        log("MC %s: %s" % (tr, out[-1]))
     return out
 
 
-def generate(ctx):
+def generate(ctx, tr):
     gl = ["SPECIFICATION Spec", "VIEW GenView", "ACTION_CONSTRAINT Emit", "CHECK_DEADLOCK FALSE"]
-    behs, g = tlc_generate(ctx, "TcpTransportMC.tla", write_cfg(ctx, "gen.cfg", dict(BASE, MaxCid=2), gl), timeout=1200)
-    g["cfg"] = "Addrs2/MaxCid=2 (one behaviour per transition of the graph)"
-    stats = [g]
-    deep, g2 = tlc_generate(ctx, "TcpTransportMC.tla", write_cfg(ctx, "sim.cfg", dict(BASE, Addrs="<- Addrs3"), gl), timeout=600,
-                            simulate={"num": 40 if ctx.quick() else 400, "depth": 16})
-    g2["cfg"] = "Addrs3/MaxCid=3 simulation depth 16"
-    stats.append(g2)
-    for s in stats:
-        log("GEN %s" % s)
+    spec, base = TRANSPORTS[tr]["spec"], TRANSPORTS[tr]["base"]
+    # ws / quic: the address without /p2p matters (refused); the quick tier generates from {a1, a3}, thorough from all three
+    small = dict(base, MaxCid=2) if tr == "tcp" else dict(base, Addrs="<- Addrs13" if ctx.quick() else "<- Addrs3", MaxCid=2)
+    behs, g = tlc_generate(ctx, spec, write_cfg(ctx, "gen_%s.cfg" % tr, small, gl), timeout=1200)
+    g["cfg"] = "%s: %s/MaxCid=2 (one behaviour per transition of the graph)" % (tr, small["Addrs"][3:])
+    stats, deep = [g], []
+    if tr == "tcp" or not ctx.quick():
+        deep, g2 = tlc_generate(ctx, spec, write_cfg(ctx, "sim_%s.cfg" % tr, dict(base, Addrs="<- Addrs3", MaxCid=3), gl), timeout=600,
+                                simulate={"num": 40 if ctx.quick() else 400, "depth": 16})
+        g2["cfg"] = "%s: Addrs3/MaxCid=3 simulation depth 16" % tr
+        stats.append(g2)
+    for st in stats:
+        log("GEN %s" % st)
     return [b["steps"] for b in behs], [b["steps"] for b in deep], stats
 
 
 # ----------------------------------------------------------------------------- schedules
 
-def addr_kind(rnd, name, ok):
+def addr_kind(rnd, name, ok, tr="tcp"):
+    if name == "a3" and (ok or tr != "tcp"):
+        return "nop2p"          # ws / quic refuse an address without /p2p: the model's a3 is always that shape
     if ok:
-        return "nop2p" if name == "a3" else "healthy"
+        return "healthy"
+    if tr == "quic":            # an unanswered UDP port costs quinn's 3 s handshake timeout: mostly fast failures
+        return rnd.choice(["wrongid", "wrongid", "dns_bad", "blackhole", "garbage"])
     return rnd.choice(["refused", "garbage", "wrongid", "refused", "garbage"])
 
 
@@ -86,12 +120,21 @@ class Healthy:
         return self.order[self.i % len(self.order)]
 
 
-def from_behaviour(steps, rnd, sid, T, src):
+def fast_fail(rnd, tr):
+    return rnd.choice(["wrongid", "bad", "dns_bad", "nop2p"] if tr == "quic" else FAST_FAIL + (["nop2p"] if tr == "ws" else []))
+
+
+def cfg_of(tr, rnd, policy, reuse=False):
+    t = TRANSPORTS[tr]
+    return {"transport": tr, "timeout_ms": t["T"], "bound_ms": t["bound"], "reuse_port": reuse, "parallel": rnd.choice([1, 8, 8]), "policy": policy}
+
+
+def from_behaviour(steps, rnd, sid, tr, src):
     """A TLC behaviour of TcpTransportMC becomes a call schedule whose remote endpoints are chosen so that the network
     can produce the outcomes the behaviour plans (success -> healthy node, failure -> refused / junk / other identity,
     still pending -> black hole)."""
     h = Healthy(rnd)
-    wait = 6 * T + 500
+    wait = 3 * TRANSPORTS[tr]["bound"] + 500
     ref, inbound_n = {}, 0
     for s in steps:
         if s["a"] == "p_listener":
@@ -107,8 +150,8 @@ def from_behaviour(steps, rnd, sid, T, src):
         a = s["a"]
         if a == "dial":
             res = plan_conn.get(s["c"])
-            kind = addr_kind(rnd, s["addr"], True) if res == "ok" else addr_kind(rnd, s["addr"], False) if res == "err" \
-                else rnd.choice(["blackhole", "blackhole", "healthy", "refused"])
+            kind = addr_kind(rnd, s["addr"], True, tr) if res == "ok" else addr_kind(rnd, s["addr"], False, tr) if res == "err" \
+                else "nop2p" if (s["addr"] == "a3" and tr != "tcp") else rnd.choice(["blackhole", "blackhole", "healthy", "refused"])
             out.append({"op": "dial", "ref": ref[s["c"]], "addr": {"kind": kind, "n": h.next()}})
         elif a == "dial_bad":
             out.append({"op": "dial", "ref": ref[s["c"]], "addr": {"kind": "bad", "n": rnd.randrange(4)}})
@@ -116,10 +159,12 @@ def from_behaviour(steps, rnd, sid, T, src):
             p = plan_raw.get(s["c"])
             specs = []
             for name in s["addrs"]:
-                if p and p["res"] == "connected" and name == p["addr"]:
-                    kind = addr_kind(rnd, name, True)
+                if name == "a3" and tr != "tcp":
+                    kind = "nop2p"
+                elif p and p["res"] == "connected" and name == p["addr"]:
+                    kind = addr_kind(rnd, name, True, tr)
                 elif p and p["res"] in ("connected", "failed") and name in p["errs"]:
-                    kind = rnd.choice(FAST_FAIL)
+                    kind = fast_fail(rnd, tr)
                 elif p and p["res"] in ("connected", "failed"):
                     kind = "blackhole"
                 else:
@@ -144,17 +189,19 @@ def from_behaviour(steps, rnd, sid, T, src):
             silent = s["res"] == "err" and ref[s["c"]].startswith("i")
             out.append({"op": "wait", "ms": 40} if silent else
                        {"op": "expect", "ref": ref[s["c"]], "ms": wait, "want": "est" if s["res"] == "ok" else "dial_failure"})
-    return {"id": sid, "src": src, "cfg": {"timeout_ms": T, "reuse_port": False, "parallel": rnd.choice([1, 8, 8]),
-                                         "policy": {"on_opened": "none", "on_est": "none", "on_inbound": "none"}},
+    return {"id": sid, "src": src, "cfg": cfg_of(tr, rnd, {"on_opened": "none", "on_est": "none", "on_inbound": "none"}),
             "steps": out, "plan": steps}
 
 
-def random_schedule(rnd, sid, T):
+def random_schedule(rnd, sid, tr="tcp"):
+    T = TRANSPORTS[tr]["T"]
     h = Healthy(rnd)
     steps, outs, ins = [], [], 0
     waits = [0, 1, 5, 20, 60, T // 2, T, T + T // 4]
     kinds = ["healthy", "healthy", "healthy", "healthy", "refused", "refused", "blackhole", "blackhole", "garbage", "garbage", "wrongid",
              "wrongid", "nop2p", "nop2p", "bad", "dns", "dns_bad"]
+    if tr == "quic":   # dead UDP endpoints cost 3 s each: keep them, but rare
+        kinds = ["healthy"] * 6 + ["wrongid"] * 3 + ["nop2p", "bad", "dns", "dns_bad", "blackhole", "garbage"]
     for _ in range(rnd.randint(4, 14)):
         x = rnd.random()
         if x < 0.18:
@@ -181,14 +228,18 @@ def random_schedule(rnd, sid, T):
     pol = {"on_opened": rnd.choice(["negotiate", "cancel_negotiate", "none", "random"]),
            "on_est": rnd.choice(["accept", "reject", "none", "random"]),
            "on_inbound": rnd.choice(["accept", "accept", "reject", "none", "random"])}
-    return {"id": sid, "src": "random", "cfg": {"timeout_ms": T, "reuse_port": rnd.random() < 0.25, "parallel": rnd.choice([1, 2, 8]), "policy": pol},
-            "steps": steps}
+    return {"id": sid, "src": "random", "cfg": cfg_of(tr, rnd, pol, reuse=(tr != "quic" and rnd.random() < 0.25)), "steps": steps}
 
 
-def make_schedules(ctx, bfs, deep):
-    rnd = random.Random(ctx.seed)
-    T = 250
-    n_bfs, n_rand = (1000, 800) if ctx.quick() else (6000, 3300)
+BUDGET = {  # (TLC one-per-transition sample, TLC simulation sample, seeded random) per transport
+    "quick": {"tcp": (1000, 100, 800), "ws": (260, 0, 160), "quic": (150, 0, 90)},
+    "thorough": {"tcp": (4000, 500, 2300), "ws": (1600, 200, 900), "quic": (700, 100, 400)},
+}
+
+
+def make_schedules(ctx, tr, bfs, deep, sid0):
+    rnd = random.Random("%s-%s" % (ctx.seed, tr))
+    n_bfs, n_sim, n_rand = BUDGET["quick" if ctx.quick() else "thorough"][tr]
     # every (action, result) pair of the graph is taken at least a few times, the rest is a seeded sample
     by_last = {}
     for b in bfs:
@@ -197,20 +248,20 @@ def make_schedules(ctx, bfs, deep):
             by_last.setdefault((last["a"], last.get("res", "")), []).append(b)
     chosen = []
     for key in sorted(by_last):
-        chosen += rnd.sample(by_last[key], min(len(by_last[key]), 6 if ctx.quick() else 40))
+        chosen += rnd.sample(by_last[key], min(len(by_last[key]), (6 if tr == "tcp" else 3) if ctx.quick() else 40))
     rest = [b for b in bfs if len(b) >= 4]
     chosen += rnd.sample(rest, min(len(rest), max(0, n_bfs - len(chosen))))
-    scheds, sid = [], 0
+    scheds, sid = [], sid0
     for b in chosen:
         sid += 1
-        scheds.append(from_behaviour(b, rnd, sid, T, "tlc"))
+        scheds.append(from_behaviour(b, rnd, sid, tr, "tlc"))
     deep = [b for b in deep if len(b) >= 12]
-    for b in rnd.sample(deep, min(len(deep), 100 if ctx.quick() else 700)):
+    for b in rnd.sample(deep, min(len(deep), n_sim)):
         sid += 1
-        scheds.append(from_behaviour(b, rnd, sid, T, "tlc-sim"))
+        scheds.append(from_behaviour(b, rnd, sid, tr, "tlc-sim"))
     for _ in range(n_rand):
         sid += 1
-        scheds.append(random_schedule(rnd, sid, T))
+        scheds.append(random_schedule(rnd, sid, tr))
     return scheds
 
 
@@ -218,6 +269,11 @@ def make_schedules(ctx, bfs, deep):
 
 def classify(seg, idx, reason):
     """Stable signature: rule + the operation / remote kinds involved."""
+    tr = json.loads(seg[0]).get("cfg", {}).get("transport", "tcp")
+    return tr + ":" + _classify(seg, idx, reason)
+
+
+def _classify(seg, idx, reason):
     slug = re.sub(r"[^a-z0-9]+", "-", reason.lower()).strip("-")[:60]
     ev = json.loads(seg[idx - 1])
     calls = {}
@@ -269,7 +325,11 @@ REQUIRED = ["dial:ok", "dial:err", "open:ok", "cancel:ok", "negotiate:ok", "nego
             "accept_pending:ok", "reject_pending:ok", "connect", "est", "dial_failure", "opened", "open_failure", "pending_inbound", "quiesce"]
 
 
-def run_harness(ctx, scheds, tag="", env=None, conc=24):
+REQUIRED_OTHER = ["dial:ok", "dial:err", "open:ok", "cancel:ok", "negotiate:ok", "accept:ok", "reject:ok", "accept_pending:ok", "connect", "est",
+                  "dial_failure", "opened", "open_failure", "pending_inbound", "quiesce"]
+
+
+def run_harness(ctx, scheds, tag="", env=None, conc=32):
     sp = ctx.path("schedules%s.jsonl" % tag)
     write_jsonl(sp, [{k: v for k, v in s.items() if k != "plan"} for s in scheds])
     summ, _ = harness(ctx, "tcplegal", ["--schedules", sp, "--out", ctx.path("trace%s.ndjson" % tag), "--seed", ctx.seed, "--conc", conc, "--healthy", 6, "--dialers", 4],
@@ -308,38 +368,62 @@ def judge(ctx, lines, scheds, tag="a", recheck=True):
     return nseg, nev, violations
 
 
+def transport_of(seg0):
+    return json.loads(seg0).get("cfg", {}).get("transport", "tcp")
+
+
 def check(ctx):
-    mc = mc_runs(ctx)
-    bfs, deep, gstats = generate(ctx)
-    scheds = make_schedules(ctx, bfs, deep)
+    only = os.environ.get("TCPLEGAL_ONLY")     # development aid: restrict to some transports
+    trs = [t for t in TRANSPORTS if not only or t in only.split(",")]
+    mc, gstats, scheds = {}, {}, []
+    for tr in trs:
+        mc[tr] = mc_runs(ctx, tr)
+        bfs, deep, gstats[tr] = generate(ctx, tr)
+        scheds += make_schedules(ctx, tr, bfs, deep, len(scheds))
+    # long executions first (QUIC: a dead UDP endpoint costs quinn's 3 s handshake timeout) so that they overlap the rest
+    scheds.sort(key=lambda sc: -TRANSPORTS[sc["cfg"]["transport"]]["bound"])
     build_s = cargo_build(ctx, ["tcplegal"])
     summ, lines = run_harness(ctx, scheds)
     log("HARNESS: %s (build %ss, %d schedules)" % (summ, build_s, len(scheds)))
     if summ["executions"] < 0.9 * len(scheds):
         raise ToolError("only %d of %d executions met their timing assumptions (machine too loaded); nothing is judged" % (summ["executions"], len(scheds)))
     nseg, nev, violations = judge(ctx, lines, scheds)
-    # drift: the recorded bookkeeping after every line against the function of the interface state the model maintains
+    # drift: the recorded bookkeeping after every line against the function of the interface state the models maintain
     _, _, drift = validate_segments(ctx, "TransportIfaceTrace.tla", "TransportIfaceTrace.cfg", lines, mode="impl", max_rejects=3, tag="d")
     for seg, idx in drift:
-        log("NOTE drift: real TcpTransport bookkeeping deviates from TcpTransportMC at %s" % seg[idx - 1][:400])
-    kinds, distinct = summarise(lines)
-    missing = [k for k in REQUIRED if not kinds.get(k)]
-    if missing:
-        raise ToolError("observable kinds never exercised: %s" % missing)
+        log("NOTE drift: real %s transport bookkeeping deviates from its model at %s" % (transport_of(seg[0]), seg[idx - 1][:400]))
+    per = {}
+    segs = split_segments(lines, lambda ln: '"e":"reset"' in ln)
+    for tr in trs:
+        tl = [ln for sg in segs if transport_of(sg[0]) == tr for ln in sg]
+        kinds, distinct = summarise(tl)
+        missing = [k for k in (REQUIRED if tr == "tcp" else REQUIRED_OTHER) if not kinds.get(k)]
+        if missing:
+            raise ToolError("%s: observable kinds never exercised: %s" % (tr, missing))
+        mine = [sc for sc in scheds if sc["cfg"]["transport"] == tr]
+        per[tr] = {
+            "states": sum(m["distinct"] for m in mc[tr]), "transitions": sum(m["transitions"] for m in mc[tr]),
+            "model": TRANSPORTS[tr]["spec"], "model_runs": mc[tr], "generation": gstats[tr],
+            "executions_validated": sum(1 for sg in segs if transport_of(sg[0]) == tr), "lines_validated": len(tl),
+            "distinct_nontrivial": distinct, "observables": kinds,
+            "schedules": {k: sum(1 for sc in mine if sc["src"] == k) for k in ("tlc", "tlc-sim", "random")},
+            "timeout_ms": TRANSPORTS[tr]["T"], "operation_bound_ms": TRANSPORTS[tr]["bound"],
+            "violations": sorted({v["sig"] for v in violations if v["sig"].startswith(tr + ":")}),
+            "impl_divergences": sum(1 for seg, _ in drift if transport_of(seg[0]) == tr),
+        }
     samples = []
     for ln in lines[1:9]:
         d = json.loads(ln)
         d.pop("bk", None)
         samples.append(d)
     cov = {
-        "states": sum(m["distinct"] for m in mc), "transitions": sum(m["transitions"] for m in mc),
+        "states": sum(p["states"] for p in per.values()), "transitions": sum(p["transitions"] for p in per.values()),
         "traces_validated_against_impl": nseg, "events_validated": nev, "samples": samples,
-        "evaluations": nseg, "distinct_nontrivial": distinct,
-        "rule": "a case is one call schedule executed on a real TcpTransport with real loopback sockets against controlled remote "
-                "endpoints until quiescence; distinct = distinct sequences of (call+result | event kind, connection id)",
-        "model_runs": mc, "generation": gstats, "harness": summ, "observables": kinds,
-        "schedules": {"tlc": sum(1 for s in scheds if s["src"] == "tlc"), "tlc_sim": sum(1 for s in scheds if s["src"] == "tlc-sim"),
-                      "random": sum(1 for s in scheds if s["src"] == "random")},
+        "evaluations": nseg, "distinct_nontrivial": sum(p["distinct_nontrivial"] for p in per.values()),
+        "rule": "a case is one call schedule executed on a real TcpTransport / WebSocketTransport / QuicTransport with real loopback "
+                "sockets against controlled remote endpoints until quiescence; distinct = distinct sequences of (call+result | event "
+                "kind, connection id) per transport",
+        "per_transport": per, "harness": summ,
         "impl_divergences": len(drift), "exhaustive": False,
     }
     return conclude(ctx, "model_checking", cov, violations, ASSUME)
@@ -368,7 +452,7 @@ def selftest(ctx):
     ok = True
     rnd = random.Random(ctx.seed)
     cargo_build(ctx, ["tcplegal"])
-    scheds = [random_schedule(rnd, i + 1, 250) for i in range(60)]
+    scheds = [random_schedule(rnd, i + 1, "tcp") for i in range(60)]
     # make sure the fault classes have something to bite on
     scheds.append({"id": 61, "src": "hand", "cfg": {"timeout_ms": 250, "reuse_port": False, "parallel": 8,
                                                    "policy": {"on_opened": "none", "on_est": "none", "on_inbound": "none"}},
@@ -407,6 +491,8 @@ def selftest(ctx):
                 d["ret"] = "err"
             elif kind == "wrong-peer" and d.get("k") == "est" and d["dir"] == "out" and named(i, d["cid"]):
                 d["peer"] = "12D3KooWT2ouvz5uMmCvHJGzAGRHiqDts5hzXR7NdoQ27pGdzp9Q"
+            elif kind == "outbound-reported-as-listener" and d.get("k") == "est" and d["dir"] == "out":
+                d["dir"] = "in"
             elif kind == "failure-names-other-address" and d.get("k") == "dial_failure":
                 d["addr"] = "/ip4/10.0.0.1/tcp/1"
             elif kind == "event-for-unknown-id" and d.get("k") == "open_failure":
@@ -425,7 +511,7 @@ def selftest(ctx):
         return None, None
 
     for kind in ["drop-dial-failure", "duplicate-established", "outcome-after-cancel", "accept-result-flipped", "wrong-peer",
-                 "failure-names-other-address", "event-for-unknown-id", "leak-pending-dials", "leak-cancel-futures", "leak-pending-open",
+                 "outbound-reported-as-listener", "failure-names-other-address", "event-for-unknown-id", "leak-pending-dials", "leak-cancel-futures", "leak-pending-open",
                  "phantom-inbound"]:
         i, mut = corrupt(kind)
         if mut is None:
@@ -440,8 +526,9 @@ def selftest(ctx):
         _, _, viol = judge(ctx, fl, scheds, tag="f")
         log("selftest harness fault %-22s -> %s" % (fault, "flagged (%s)" % sorted({v["sig"] for v in viol})[:2] if viol else "NOT FLAGGED"))
         ok &= bool(viol)
-    for m in MUTANTS:
-        r = tlc_mc(ctx, "TcpTransportMC.tla", write_cfg(ctx, "neg_%s.cfg" % m, dict(BASE, MaxCid=2, Mutant=m), MC_INV), workers=4,
+    for m in MUTANTS + QUIC_MUTANTS:
+        spec, base = ("QuicTransportMC.tla", QBASE) if m in QUIC_MUTANTS else ("TcpTransportMC.tla", BASE)
+        r = tlc_mc(ctx, spec, write_cfg(ctx, "neg_%s.cfg" % m, dict(base, MaxCid=2, Mutant=m), MC_INV), workers=4,
                    expect_violation=True, timeout=900)
         viol = re.findall(r"Invariant (\w+) is violated", r["out"])
         log("selftest negative model %-26s -> %s" % (m, "violates %s" % viol[0] if viol else "NO VIOLATION"))
